@@ -10,6 +10,7 @@
 #include <signal.h>
 #include <errno.h>
 #include <sys/wait.h>
+#include <sys/prctl.h>
 #include <sys/stat.h>
 #include <sys/resource.h>
 #include <sys/time.h>
@@ -91,7 +92,7 @@ static void param_set(const char *kv)
 	if (!eq || nparams >= MAXPARAM) return;
 	size_t kl = eq - kv;
 	for (int i = 0; i < nparams; i++)
-		if (strlen(pkeys[i]) == kl && !strncmp(pkeys[i], kv, kl)) { pvals[i] = strdup(eq + 1); return; }
+		if (strlen(pkeys[i]) == kl && !strncmp(pkeys[i], kv, kl)) { free(pvals[i]); pvals[i] = strdup(eq + 1); return; }
 	pkeys[nparams] = strndup(kv, kl); pvals[nparams] = strdup(eq + 1); nparams++;
 }
 const char *vz_param(const char *key, const char *dflt)
@@ -258,7 +259,7 @@ static void cpu_watchdog(int sig)
 }
 static void run_case(const uint8_t *b, size_t n)
 {
-	long cpu = vz_param_l("cpu_limit", 12);
+	long cpu = vz_param_l("cpu_limit", 6);
 	if (cpu > 0) {
 		struct itimerval it = { { 0, 0 }, { cpu, 0 } };
 		signal(SIGPROF, cpu_watchdog);
@@ -344,6 +345,7 @@ static int batch(int argc, char **argv)
 			res_fd = 3;
 			int nfd = open("/dev/null", O_WRONLY); if (nfd >= 0) { dup2(nfd, 1); close(nfd); }
 			setpgid(0, 0);
+			prctl(PR_SET_PDEATHSIG, SIGKILL);   /* no orphan when the worker is killed from outside */
 			alarm(tmo);
 			run_case(buf, n);
 			_exit(0);
@@ -381,6 +383,7 @@ static int batch(int argc, char **argv)
 			char ep[600]; snprintf(ep, sizeof ep, "%s.fail%ld.stderr", pre, n_fail);
 			rename(errpath, ep);
 			printf("FAIL idx=%llu kind=%s tag=%s file=%s\n", (unsigned long long)idx, kind, tag, path);
+			{ char *mp = rp ? strstr(rp, " msg=") : NULL; if (mp) { char *nl = strchr(mp, '\n'); printf("FMSG idx=%llu %.*s\n", (unsigned long long)idx, nl ? (int)(nl - mp - 5) : 300, mp + 5); } }
 			fflush(stdout);
 			if (++n_fail >= maxfail) break;
 		}
@@ -416,6 +419,7 @@ static int multi(const char *listfile)
 			if (pfd[1] != 3) { dup2(pfd[1], 3); close(pfd[1]); }
 			fcntl(3, F_SETFD, FD_CLOEXEC); res_fd = 3; dup2(nfd, 1); close(nfd);
 			setpgid(0, 0);
+			prctl(PR_SET_PDEATHSIG, SIGKILL);   /* no orphan when the worker is killed from outside */
 			char *tok = strtok(line, " ");
 			size_t n; uint8_t *b = load_case(tok, &n);
 			while ((tok = strtok(NULL, " "))) param_set(tok);
@@ -441,7 +445,7 @@ static int multi(const char *listfile)
 #ifndef VFZ_NO_MAIN
 int main(int argc, char **argv)
 {
-	if (argc >= 3 && !strcmp(argv[1], "multi")) return multi(argv[2]);
+	if (argc >= 3 && !strcmp(argv[1], "multi")) { prctl(PR_SET_PDEATHSIG, SIGKILL); return multi(argv[2]); }
 	if (argc >= 3 && !strcmp(argv[1], "run")) {
 		size_t n; uint8_t *b = load_case(argv[2], &n);
 		for (int i = 3; i < argc; i++) param_set(argv[i]);
@@ -450,7 +454,7 @@ int main(int argc, char **argv)
 		run_case(b, n);
 		return 0;
 	}
-	if (argc >= 2 && !strcmp(argv[1], "batch")) return batch(argc, argv);
+	if (argc >= 2 && !strcmp(argv[1], "batch")) { prctl(PR_SET_PDEATHSIG, SIGKILL); return batch(argc, argv); }
 	if (argc >= 4 && !strcmp(argv[1], "gen")) {
 		for (int i = 4; i < argc; i++) param_set(argv[i]);
 		size_t cap = 1 << 16; uint8_t *buf = malloc(cap);
